@@ -550,14 +550,29 @@ def _comp_bound(node):
     return out
 
 
+class _Ref:
+    """a read of a tracked name or attribute chain"""
+
+    def __init__(self, id, node):
+        self.id = id
+        self.node = node
+        self.lineno = getattr(node, 'lineno', 0)
+
+
 def _loads(node):
     bound = _comp_bound(node)
-    return [n for n in ast.walk(node) if isinstance(n, ast.Name) and isinstance(n.ctx, ast.Load) and n.id not in bound]
+    out = [n for n in ast.walk(node) if isinstance(n, ast.Name) and isinstance(n.ctx, ast.Load) and n.id not in bound]
+    for n in ast.walk(node):
+        if isinstance(n, ast.Attribute) and _is_chain(n) and isinstance(n.ctx, ast.Load):
+            out.append(_Ref(src(n), n))
+    return out
 
 
 def _targets(t, out):
     if isinstance(t, ast.Name):
         out.add(t.id)
+    elif isinstance(t, ast.Attribute) and _is_chain(t):
+        out.add(src(t))
     elif isinstance(t, (ast.Tuple, ast.List)):
         for e in t.elts:
             _targets(e, out)
@@ -591,7 +606,9 @@ def definite_assignment(stmts, defined, tracked, const_false=()):
         if isinstance(s, ast.Assign):
             use(s.value, d)
             for t in s.targets:
-                if not isinstance(t, (ast.Name, ast.Tuple, ast.List)):
+                if isinstance(t, ast.Subscript):
+                    use(t.value, d); use(t.slice, d)
+                elif not isinstance(t, (ast.Name, ast.Tuple, ast.List, ast.Attribute)):
                     use(t, d)
             for t in s.targets:
                 _targets(t, d)
